@@ -202,6 +202,11 @@ func (c *SchemaCtx) IssueFromUnknownError(err error) *ZogIssue {
 	if !ok {
 		return c.Issue().SetError(err)
 	}
+	if zerr.Dtype == "" {
+		// issues built outside a schema (e.g. request decoding) get the node's type, which
+		// the formatter needs to find their message
+		zerr.Dtype = c.DType
+	}
 	return zerr
 }
 
